@@ -195,15 +195,17 @@ async def run_history(loop, sc: Scenario, make=None, projector=None, latency_us=
           if sc.script:
               ch = sc.script[n]
               ch = tuple(ch) if isinstance(ch, list) else ch
-              if ch not in ("enq", "maint") and ch[0] != "sleep" and ch not in choices:
+              if ch not in ("enq", "maint") and ch[0] not in ("sleep", "enqx") and ch not in choices:
                   continue                   # (not applicable in the client's present state, e.g. after an interrupted call)
           stats["ops"] += 1
-          if ch == "enq":
+          if ch == "enq" or ch[0] == "enqx":
               nid += 1
               q = rng.choice(queues)
               topic = rng.choice(sc.topics)
               delay = None if sc.fifo_only else rng.choice(sc.delays_ms)
               ttl = None if sc.fifo_only else rng.choice(sc.ttls_ms)
+              if ch != "enq":         # directed: ("enqx", topic, delay_ms, ttl_ms)
+                  topic, delay, ttl = ch[1], ch[2], ch[3]
               key = RK(id_=f"m{nid}", topic=topic, queue=q, priority=rng.choice(sc.prios))
               params = mkparams(delay, ttl)
               payload = f'{{"n":{nid}}}'
